@@ -216,8 +216,14 @@ def check_model(spec, seed, res, tier):
       errs['bias'] = _close(bias[i], r['bias'])
     else:
       rq1, rd1 = ref.step(q, d, c if nu else None, 1)
+      w1 = ref.last_warnings
       rq5, rd5 = ref.step(q, d, c if nu else None, 5)
-      if np.abs(rd5).max() < 1e3:
+      if w1 or ref.last_warnings or not np.abs(rd5).max() < 1e3:
+        # the reference itself reports an unstable simulation (and resets):
+        # counted, not compared
+        res['extra']['unstable_reference_steps'] = res['extra'].get(
+            'unstable_reference_steps', 0) + 1
+      else:
         errs['step1'] = max(_close(q1[i], rq1), _close(d1[i], rd1))
         errs['step5'] = max(_close(q5[i], rq5), _close(d5[i], rd5)) / 10
     for kname, e in errs.items():
